@@ -22,7 +22,8 @@ NSNAME = {0: 'wasi_snapshot_preview1', 1: 'wasi_unstable'}
 # ---------------------------------------------------------------- the table model (the oracle)
 class Table:
     def __init__(self):
-        self.t = {0: ['std', True, False], 1: ['std', True, False], 2: ['std', True, False], 3: ['preopen', True, False]}
+        self.t = {0: ['std', True, False], 1: ['std', True, False], 2: ['std', True, False], 3: ['preopen', True, False], 4: ['preopen', True, False]}
+        self.paths = {}
         self.failed_open = False      # a path_open that failed after path resolution happened (it must leave no trace in the table)
 
     def live(self, x):
@@ -93,17 +94,19 @@ class Table:
         elif call == 'fd_write' and x in (1, 2):
             if errno != 0 or d.get('nw') != '3' or d.get('host') != '414243':
                 bad.append((call, 'stdstream', 'lost', 'fd_write to live descriptor %d: errno=%d %s; the host stream did not receive "ABC"' % (x, errno, det)))
-        elif call == 'fd_prestat_get' and x == 3:
-            if errno != 0 or d.get('type') != '0' or d.get('len') != str(len(preopen_path)):
-                bad.append((call, xc, 'wrong', 'fd_prestat_get(pre-open) gave errno=%d %s, want type=0 len=%d' % (errno, det, len(preopen_path))))
-        elif call == 'fd_prestat_dir_name' and x == 3:
-            if errno != 0 or det != 'name=' + preopen_path:
-                bad.append((call, xc, 'wrong', 'fd_prestat_dir_name(pre-open) gave errno=%d %s' % (errno, det)))
+        elif call == 'fd_prestat_get' and x in (3, 4) and self.t[x][0] == 'preopen':
+            pp = preopen_path if x == 3 else self.paths.get(4, '?')
+            if errno != 0 or d.get('type') != '0' or d.get('len') != str(len(pp)):
+                bad.append((call, xc, 'wrong', 'fd_prestat_get(pre-open %d) gave errno=%d %s, want type=0 len=%d' % (x, errno, det, len(pp))))
+        elif call == 'fd_prestat_dir_name' and x in (3, 4) and self.t[x][0] == 'preopen':
+            pp = preopen_path if x == 3 else self.paths.get(4, '?')
+            if errno != 0 or det != 'name=' + pp:
+                bad.append((call, xc, 'wrong', 'fd_prestat_dir_name(pre-open %d) gave errno=%d %s' % (x, errno, det)))
         return bad
 
     def alphabet(self, uses):
-        issued = sorted(n for n in self.t if n > 3)
-        xs = [0, 1, 2, 3] + issued + [max(self.t) + 1, 1000, 0xFFFFFFFF]
+        issued = sorted(n for n in self.t if n > 4)
+        xs = [0, 1, 2, 3, 4] + issued + [max(self.t) + 1, 1000, 0xFFFFFFFF]
         ops = []
         for ns in (0, 1):
             ops += ['of,%d' % ns, 'od,%d' % ns]
@@ -143,6 +146,10 @@ def judge(ex, line, r, report=True):
     if not pre or not pre[0].startswith('preopen=3 '):
         print('MACHINERY-ERROR: pre-open was not registered as descriptor 3: %r %r' % (pre, r['san'][:5])); sys.exit(2)
     path = pre[0].split('path=', 1)[1]
+    pre2 = [i for i in r['info'] if i.startswith('preopen2=')]
+    if not pre2 or not pre2[0].startswith('preopen2=4 '):
+        print('MACHINERY-ERROR: the second pre-open was not registered as descriptor 4: %r %r' % (pre2, r['san'][:5])); sys.exit(2)
+    tbl.paths[4] = pre2[0].split('path=', 1)[1]
     ops = line.split()
     for k, (i, name, errno, det) in enumerate(r['steps']):
         bad = tbl.step(ops[k], errno, det, path)
@@ -158,6 +165,7 @@ def judge(ex, line, r, report=True):
             probes[int(w[1])] = dict(x.split(':', 1) for x in w[2:])
     ident = {}
     t2 = Table()
+    t2.paths = dict(tbl.paths)
     for k, (i, name, errno, det) in enumerate(r['steps']):
         t2.step(ops[k], errno, det, path)
         pr = probes.get(k)
@@ -168,7 +176,7 @@ def judge(ex, line, r, report=True):
                 del ident[x]
         for xs, val in pr.items():
             x = int(xs)
-            if x == 3 or not t2.live(x):
+            if x == 3 or not t2.live(x):      # (3 was registered without a native descriptor: nothing to stat)
                 continue
             if x not in ident:
                 ident[x] = val
@@ -243,7 +251,7 @@ def main(tier):
     ex = Explorer('C13', tier, h, 'desc', 'c13.py')
     ex.deadline = time.time() + (200 if tier == 'quick' else 1500)
     # which of the calls wasi.c leaves unimplemented: they answer NOSYS on a live descriptor and are outside the alphabet
-    probe = ['of,0 u,%s,4,0' % s for s in STUBS]
+    probe = ['of,0 u,%s,5,0' % s for s in STUBS]
     uses, unimpl = list(USES), []
     for s, r in zip(STUBS, h.run_lines('desc', probe)):
         ex.note(r, outcome_of=lambda s: str(s[2]))
